@@ -703,6 +703,9 @@ ensures
             ('    let expr = expr_to_asg_texpr(assignment_stmt.rhs(), context).unwrap();', 'before', 'proof { assert(context.trace() == tr_l && (context.errs() == er_l || context.errs() == er_l.push(SemanticErrorKind::TooManyIndexes))); }     //@C07,C13:indexed-target-resolved-once'),
             ('    let expr = expr_to_asg_texpr(assignment_stmt.rhs(), context).unwrap();', 'after', 'let ghost tr_r = context.trace(); let ghost er_r = context.errs();'),
             ('    let lvalue = asg::LValue::IndexedIdentifier(indexed_identifier);', 'after', 'proof { assert(context.trace() == tr_r && context.errs() == er_r); }     //@C07,C13:indexed-target-resolved-once'),
+            ('indexed_identifier_to_asg_type(&indexed_identifier_ast, context);', 'after', 'let ghost tgt_ok = indexed_identifier.identifier is Ok; let ghost tgt_ty = typ;'),
+            # C13 (from the statement: "assigning to a const symbol is reported"): also when the target is an element / slice of a const register
+            ('\n    stmt_asg\n', 'before', 'proof { assert(context.trace() == tr_r && context.errs() == er_r + cond1(tgt_ok && tgt_ty is BitArray && types::sp_is_const(tgt_ty), SemanticErrorKind::MutateConstError)); }     //@C13:assignment-to-const-element-reported'),
             ('let (symbol_id, symbol_type) = context.lookup_symbol(name_str.as_str(), name).as_tuple();', 'before', 'let ghost mid = *context;'),
             ('let (symbol_id, symbol_type) = context.lookup_symbol(name_str.as_str(), name).as_tuple();', 'after', 'let ghost e1 = context.errs();'),
             ('        let expr_type = expr.get_type();', 'before', 'let ghost ex0 = expr;'),
